@@ -334,6 +334,49 @@ pub struct Target {
     /// the path lies in don't-care zone (a): relative, and its normalised
     /// sequence starts with an empty segment
     pub zone_a: bool,
+    /// expected logical segments of the path (normalised sequence plus the
+    /// empty segment that spells a trailing '/'); used in zone (a), where the
+    /// text rendering is not faithful
+    pub path_segs: Vec<Vec<u8>>,
+    /// during the 5.2.4 walk of the (merged) path an empty segment was met
+    /// while the output was empty
+    pub empty_on_empty: bool,
+}
+
+/// Was an empty segment met while the output stack was empty during the walk?
+pub fn walk_meets_empty_on_empty(p: B) -> bool {
+    let (abs, segs) = segments(p);
+    let mut st: Vec<B> = Vec::new();
+    for &s in &segs {
+        if s == b"." {
+        } else if s == b".." {
+            match st.last() {
+                Some(&t) if t != b".." => {
+                    st.pop();
+                }
+                _ => {
+                    if !abs {
+                        st.push(s)
+                    }
+                }
+            }
+        } else {
+            if s.is_empty() && st.is_empty() {
+                return true;
+            }
+            st.push(s)
+        }
+    }
+    false
+}
+
+fn expected_segs(p: B) -> Vec<Vec<u8>> {
+    let (abs, segs) = segments(p);
+    let mut st: Vec<Vec<u8>> = norm_seq(abs, &segs).into_iter().map(|x| x.to_vec()).collect();
+    if segs.last().map_or(false, |l| *l == b"." || *l == b"..") && !st.is_empty() {
+        st.push(Vec::new());
+    }
+    st
 }
 
 /// Dot-segment removal as the property prescribes: the literal 5.2.4 algorithm
@@ -370,10 +413,12 @@ pub fn resolve(base: B, reference: B) -> Target {
     let r = split(reference);
     let ov = |x: Option<B>| x.map(|v| v.to_vec());
     let (scheme, authority, path, query, branch): (Vec<u8>, Option<Vec<u8>>, (Vec<u8>, bool), Option<Vec<u8>>, &'static str);
+    let mut raw_path: Vec<u8> = Vec::new();
     if let Some(rs) = r.scheme {
         scheme = rs.to_vec();
         authority = ov(r.authority);
         path = remove_dots(r.path);
+        raw_path = r.path.to_vec();
         query = ov(r.query);
         branch = "scheme";
     } else {
@@ -381,6 +426,7 @@ pub fn resolve(base: B, reference: B) -> Target {
         if r.authority.is_some() {
             authority = ov(r.authority);
             path = remove_dots(r.path);
+            raw_path = r.path.to_vec();
             query = ov(r.query);
             branch = "authority";
         } else {
@@ -391,11 +437,13 @@ pub fn resolve(base: B, reference: B) -> Target {
                 branch = "empty-path";
             } else if r.path.starts_with(b"/") {
                 path = remove_dots(r.path);
+                raw_path = r.path.to_vec();
                 query = ov(r.query);
                 branch = "absolute-path";
             } else {
                 let m = merge(b.authority.is_some(), b.path, r.path);
                 path = remove_dots(&m);
+                raw_path = m.clone();
                 query = ov(r.query);
                 branch = "relative-path";
             }
@@ -409,6 +457,8 @@ pub fn resolve(base: B, reference: B) -> Target {
         fragment: ov(r.fragment),
         branch,
         zone_a: path.1,
+        path_segs: if branch == "empty-path" { Vec::new() } else { expected_segs(&raw_path) },
+        empty_on_empty: branch != "empty-path" && walk_meets_empty_on_empty(&raw_path),
     }
 }
 
